@@ -106,7 +106,7 @@ def search(ctx, kind, modname, spec, ops, depth, label="", time_cap=None, nontri
     for d in range(1, depth + 1):
         items = [(modname, spec, h, ops) for h in frontier]
         nxt = []
-        for h, results in zip(frontier, ctx.map(kind, "btmc.bfs", "expand", items, chunksize=max(1, min(8, len(items) // (ctx.jobs * 4) or 1)))):
+        for (_m, _s, h, _o), results in ctx.run(kind, "btmc.bfs", "expand", items, chunksize=max(1, min(8, len(items) // (ctx.jobs * 4) or 1))):
             for op, (status, key, viols) in zip(ops, results):
                 if status == "disabled":
                     disabled += 1
